@@ -135,12 +135,12 @@ CmdResult Exec::cmd(const CmdSpec& spec, bool run_monitors)
 		out.cmd_digests.push_back(trace_hash(r));
 		out.cmd_lines.push_back(r.argv_line + strf(" => exit %d sig %d | ", r.exit_code, r.term_sig) + r.err + " |OUT| " + r.out + " |LOG| " + r.log + " |TRACE| " + trace_digest_text(r, 4000));
 	}
-	if (run_monitors && monitors) after_command(spec, r);
-	// concurrent changes made inside the command created new file versions
-	bool conc = false;
+	// touch re-stamps files, fix re-creates them, concurrent-change faults rewrite them: register what is on the
+	// disks now under its (path, size, stamp) key before the oracles look at the content file
+	if (spec.cmd == "touch" || spec.cmd == "fix") sb.observe_versions();
 	for (int i = 0; i < r.info.nfaults; ++i)
-		if (r.info.faults[i].kind == FK_CONCURRENT && r.info.faults[i].fired) conc = true;
-	if (conc) sb.observe_versions();
+		if (r.info.faults[i].kind == FK_CONCURRENT && r.info.faults[i].fired) { sb.observe_versions(); break; }
+	if (run_monitors && monitors) after_command(spec, r);
 	return r;
 }
 
